@@ -100,14 +100,14 @@ def gen_plan(prop, run_seed, tier):
         ops = ["reveal"] * 6 + ["reveal_cli"] * 2 + ["mask", "mask", "unmask", "save_load", "save_load",
                                                       "set_observed", "set_observed", "set_observed", "construct", "construct", "perm_ctor"]
     elif prop == "C02":
-        spec = gen.gen_screen(w, alphabet=w.choice(["tricky", "tricky", "ascii"]), observed_rate=w.choice([0.3, 0.5, 0.5, 0.7, 0.0, 1.0]))
+        spec = gen.gen_screen(w, alphabet=w.choice(["tricky", "tricky", "ascii", "prefixy"]), observed_rate=w.choice([0.3, 0.5, 0.5, 0.7, 0.0, 1.0]))
         _sprinkle_special_obs(w, spec)
         plan["screen"] = spec
         plan["prepare"] = dict(fraction=w.choice([0.2, 0.5, 0.5, 0.8, 1.0]), seed=w.randrange(2**31)) if w.random() < 0.6 else None
         n_steps = s.randint(2, 10 if tier == "quick" else 30)
         ops = ["save_load"] * 6 + ["space_save_load"] * 2 + ["reveal", "mask", "unmask", "split", "set_observed", "merge_plates", "merge_plates", "perm_ctor", "perm_ctor"]
     else:  # C01
-        spec = gen.gen_screen(w, alphabet=w.choice(["tricky", "tricky", "ascii"]))
+        spec = gen.gen_screen(w, alphabet=w.choice(["tricky", "tricky", "ascii", "prefixy"]))
         plan["screen"] = spec
         plan["prepare"] = dict(fraction=w.choice([0.2, 0.5, 1.0]), seed=w.randrange(2**31)) if w.random() < 0.7 else None
         n_steps = s.randint(2, 10 if tier == "quick" else 30)
@@ -868,6 +868,13 @@ def op_resplit_ctor(ctx, st, t):
     if n == 0:
         return
     keep = np.array([rnd.random() < 0.5 for _ in range(n)], dtype=bool)
+    if rnd.random() < 0.4:
+        # the part that is kept holds only the SHORTER names: the widest sample / treatment names occur in the mapping alone
+        sn = [str(x) for x in np.asarray(s.sample_names).tolist()]
+        tn = [max(len(str(y)) for y in row) for row in np.asarray(s.treatment_names).tolist()]
+        ws, wt = max(len(x) for x in sn), max(tn)
+        keep = np.array([len(a) < ws and b < wt for a, b in zip(sn, tn)], dtype=bool) if rnd.random() < 0.5 else \
+            np.array([len(a) < ws for a in sn], dtype=bool)
     if not keep.any():
         keep[rnd.randrange(n)] = True
     try:
